@@ -72,6 +72,25 @@ def isNumber (t : List Nat) : Bool :=
 
 /-! ## The recogniser -/
 
+/-- progress inside `true` / `false` / `null` (the state after the named prefix) -/
+inductive LitSt where
+  | t | tr | tru | f | fa | fal | fals | n | nu | nul
+  deriving Repr, DecidableEq
+
+/-- `some none`: the literal is complete -/
+def litStep (s : LitSt) (c : Nat) : Option (Option LitSt) :=
+  match s with
+  | .t => if c = 114 then some (some .tr) else none
+  | .tr => if c = 117 then some (some .tru) else none
+  | .tru => if c = 101 then some none else none
+  | .f => if c = 97 then some (some .fa) else none
+  | .fa => if c = 108 then some (some .fal) else none
+  | .fal => if c = 115 then some (some .fals) else none
+  | .fals => if c = 101 then some none else none
+  | .n => if c = 117 then some (some .nu) else none
+  | .nu => if c = 108 then some (some .nul) else none
+  | .nul => if c = 108 then some none else none
+
 inductive Ctx where
   | arr | obj
   deriving Repr, DecidableEq
@@ -87,7 +106,7 @@ inductive Mode where
   | esc (isKey : Bool)
   | hex (isKey : Bool) (left : Nat)   -- inside `\u`, `left + 1` hex digits still to come
   | num (s : NumSt)
-  | lit (rest : List Nat)             -- remaining bytes of `true` / `false` / `null`
+  | lit (s : LitSt)                   -- inside `true` / `false` / `null`
   deriving Repr, DecidableEq
 
 structure St where
@@ -104,9 +123,9 @@ def startValue (stack : List Ctx) (c : Nat) : Option St :=
   if c = 34 then some ⟨stack, .str false⟩
   else if c = 91 then some ⟨.arr :: stack, .valOrClose⟩
   else if c = 123 then some ⟨.obj :: stack, .keyOrClose⟩
-  else if c = 116 then some ⟨stack, .lit (bytes! "rue")⟩
-  else if c = 102 then some ⟨stack, .lit (bytes! "alse")⟩
-  else if c = 110 then some ⟨stack, .lit (bytes! "ull")⟩
+  else if c = 116 then some ⟨stack, .lit .t⟩
+  else if c = 102 then some ⟨stack, .lit .f⟩
+  else if c = 110 then some ⟨stack, .lit .n⟩
   else match numStart c with
     | some s => some ⟨stack, .num s⟩
     | none => none
@@ -157,11 +176,11 @@ def step (ws : Bool) (st : St) (c : Nat) : Option St :=
       if s.final then
         (if ws && isWs c then some ⟨st.stack, .after⟩ else afterValue st.stack c)
       else none
-  | .lit rest =>
-    match rest with
-    | [] => none   -- unreachable: a finished literal is `.after`
-    | [r] => if c = r then some ⟨st.stack, .after⟩ else none
-    | r :: rs => if c = r then some ⟨st.stack, .lit rs⟩ else none
+  | .lit s =>
+    match litStep s c with
+    | none => none
+    | some none => some ⟨st.stack, .after⟩
+    | some (some s') => some ⟨st.stack, .lit s'⟩
 
 def run (ws : Bool) : St → List Nat → Option St
   | st, [] => some st
